@@ -1,5 +1,157 @@
-//! C34 (filled in below)
+//! C34: routing of injected events to pipelines and replicas, single and batch path.
+//!
+//! Request: {"kind":"route","pipelines":[[l,replicas,key|null],..],"routes":[[to_l,[patterns..]],..],
+//!           "outcomes":[bool per deploy task],
+//!           "events":[{"single":{"type":T,"fields":{..}}} | {"batch":"<events text>","seqs":[..]}]}
+//! Every event carries a field "seq" (unique number) so that batch deliveries can be attributed.
+//! Answer: {"results":[ "t<code>" | "nd<code>" | "nt" | {"targets":{"<seq>":code,..},"errors":[codes]} ]}
+//! {"kind":"hash","s":"..."} -> {"hash":"<DefaultHasher of the str>"}  (pins the SipHash model)
+use crate::{pcode, wname, BATCHLOG, NEXT_ID, PORT, RT};
 use serde_json::{json, Value as J};
-pub fn run_route(_req: &J) -> J {
-    json!({"error": "todo"})
+use std::hash::{Hash, Hasher};
+use std::time::Instant;
+use varpulis_cluster::coordinator::{Coordinator, DeployResponse, DeployTaskResult, InjectBatchRequest, InjectEventRequest};
+use varpulis_cluster::pipeline_group::{InterPipelineRoute, PipelineGroupSpec, PipelinePlacement};
+use varpulis_cluster::worker::{WorkerCapacity, WorkerId, WorkerNode, WorkerStatus};
+use varpulis_cluster::ClusterError;
+
+pub fn run_hash(req: &J) -> J {
+    let s = req["s"].as_str().unwrap().to_string();
+    let mut h = std::collections::hash_map::DefaultHasher::new();
+    s.hash(&mut h);
+    json!({"hash": h.finish().to_string()})
+}
+
+fn not_deployed_name(msg: &str) -> Option<String> {
+    // "Pipeline '<name>' not deployed"
+    let a = msg.find("Pipeline '")? + 10;
+    let b = msg[a..].find('\'')? + a;
+    if msg[b..].contains("not deployed") {
+        Some(msg[a..b].to_string())
+    } else {
+        None
+    }
+}
+
+pub fn run_route(req: &J) -> J {
+    let rt = RT.get().unwrap();
+    let addr = format!("http://127.0.0.1:{}", PORT.get().unwrap());
+    let mut c = Coordinator::new();
+    for id in 1..=2u64 {
+        c.register_worker(WorkerNode {
+            id: WorkerId(wname(id)),
+            address: addr.clone(),
+            api_key: "k".into(),
+            status: WorkerStatus::Registering,
+            capacity: WorkerCapacity { cpu_cores: 4, pipelines_running: 0, max_pipelines: 1000 },
+            last_heartbeat: Instant::now(),
+            assigned_pipelines: Vec::new(),
+            events_processed: 0,
+        });
+    }
+    let spec = PipelineGroupSpec {
+        name: "grp".into(),
+        pipelines: req["pipelines"]
+            .as_array()
+            .unwrap()
+            .iter()
+            .map(|p| PipelinePlacement {
+                name: format!("p{}", p[0].as_u64().unwrap()),
+                source: "stream X = Y".into(),
+                worker_affinity: None,
+                replicas: p[1].as_u64().unwrap() as usize,
+                partition_key: p[2].as_str().map(|s| s.to_string()),
+            })
+            .collect(),
+        routes: req["routes"]
+            .as_array()
+            .unwrap()
+            .iter()
+            .map(|r| InterPipelineRoute {
+                from_pipeline: "src".into(),
+                to_pipeline: format!("p{}", r[0].as_u64().unwrap()),
+                event_types: r[1].as_array().unwrap().iter().map(|s| s.as_str().unwrap().to_string()).collect(),
+                nats_subject: None,
+            })
+            .collect(),
+    };
+    let plan = c.plan_deploy_group(&spec).expect("plan");
+    let outs: Vec<bool> = req["outcomes"].as_array().unwrap().iter().map(|b| b.as_bool().unwrap()).collect();
+    let results: Vec<DeployTaskResult> = plan
+        .tasks
+        .iter()
+        .enumerate()
+        .map(|(i, t)| {
+            let ok = outs.get(i).copied().unwrap_or(true);
+            let mut idn = NEXT_ID.lock().unwrap();
+            *idn += 1;
+            DeployTaskResult {
+                replica_name: t.replica_name.clone(),
+                pipeline_name: t.pipeline_name.clone(),
+                worker_id: t.worker_id.clone(),
+                worker_address: t.worker_address.clone(),
+                worker_api_key: t.worker_api_key.clone(),
+                replica_count: t.replica_count,
+                outcome: if ok { Ok(DeployResponse { id: format!("id{}", *idn), name: t.replica_name.clone(), status: "running".into() }) } else { Err("scripted".into()) },
+            }
+        })
+        .collect();
+    let gid = c.commit_deploy_group(plan, results).expect("commit");
+    // Observation channel only: a failed placement has an empty pipeline id, so its delivery URL
+    // would be the same for all of them; give each a distinct id so the stub can attribute deliveries.
+    if let Some(g) = c.pipeline_groups.get_mut(&gid) {
+        for (name, d) in g.placements.iter_mut() {
+            if d.pipeline_id.is_empty() {
+                d.pipeline_id = format!("failed-{}", name.replace('#', "_"));
+            }
+        }
+    }
+    let mut out = Vec::new();
+    for ev in req["events"].as_array().unwrap() {
+        if let Some(s) = ev.get("single") {
+            let reqv = InjectEventRequest {
+                event_type: s["type"].as_str().unwrap().to_string(),
+                fields: s["fields"].as_object().cloned().unwrap_or_default(),
+            };
+            out.push(match c.resolve_inject_target(&gid, &reqv) {
+                Ok(t) => json!(format!("t{}", pcode(&t.target_name))),
+                Err(ClusterError::RoutingFailed(m)) => match not_deployed_name(&m) {
+                    Some(n) => json!(format!("nd{}", pcode(&n))),
+                    None => json!("nt"),
+                },
+                Err(e) => json!(format!("err:{}", e)),
+            });
+        } else {
+            BATCHLOG.lock().unwrap().clear();
+            let text = ev["batch"].as_str().unwrap().to_string();
+            let resp = rt.block_on(c.inject_batch(&gid, InjectBatchRequest { events_text: text }));
+            match resp {
+                Ok(r) => {
+                    let id2name: std::collections::HashMap<String, String> =
+                        c.pipeline_groups[&gid].placements.iter().map(|(n, d)| (d.pipeline_id.clone(), n.clone())).collect();
+                    let mut targets = serde_json::Map::new();
+                    for (pid, body) in BATCHLOG.lock().unwrap().iter() {
+                        let name = id2name.get(pid).cloned().unwrap_or_else(|| format!("?{}", pid));
+                        for e in body["events"].as_array().cloned().unwrap_or_default() {
+                            let seq = e["fields"]["seq"].to_string();
+                            targets.insert(seq, json!({"t": pcode_or(&name), "type": e["event_type"], "fields": e["fields"]}));
+                        }
+                    }
+                    let mut errs: Vec<u64> = r.errors.iter().filter_map(|m| not_deployed_name(m)).map(|n| pcode_or(&n)).collect();
+                    errs.sort();
+                    out.push(json!({"targets": targets, "errors": errs, "raw_errors": r.errors, "sent": r.events_sent, "failed": r.events_failed}));
+                }
+                Err(e) => out.push(json!(format!("err:{}", e))),
+            }
+        }
+    }
+    json!({ "results": out })
+}
+
+fn pcode_or(name: &str) -> u64 {
+    if name.starts_with('p') && name[1..].chars().all(|c| c.is_ascii_digit() || c == '#') {
+        pcode(name)
+    } else {
+        999_999
+    }
 }
